@@ -397,29 +397,37 @@ def compare_with_sphinx(data: bytes, base: str):
 
 def classify_sphinx_diff(data: bytes, base: str, sig: str):
     """name the failing sub-predicate: re-run the comparison on repaired variants of the same file"""
-    if not data.startswith(HDR2.encode()):
-        txt = body_text(data)
-        if txt is not None and any(c in txt for c in SEPS.replace("\r", "")) or (txt and "\r" in txt.replace("\r\n", "\n")):
-            return "sphinx:splitlines-separator"
-        return sig
     try:
-        parts = data.split(b"\n", 4)
-        raw = zlib.decompress(parts[4])
-        txt = raw.decode()
+        if data.startswith(HDR2.encode()):
+            parts = data.split(b"\n", 4)
+            head = b"\n".join(parts[:4]) + b"\n"
+            txt = zlib.decompress(parts[4]).decode()
+
+            def rebuild(t):
+                return head + zlib.compress(t.encode())
+        else:
+            parts = data.split(b"\n", 1)          # Sphinx splits everything after the format line with splitlines
+            head = parts[0] + b"\n"
+            txt = parts[1].decode()
+
+            def rebuild(t):
+                return head + t.encode()
     except Exception:
         return sig
-    head = b"\n".join(parts[:4]) + b"\n"
 
     def ok(t):
-        return compare_with_sphinx(head + zlib.compress(t.encode()), base) is None
-    if txt and not txt.endswith("\n") and ok(txt + "\n"):
-        return "sphinx:final-line-without-newline"
+        return compare_with_sphinx(rebuild(t), base) is None
     if any(c in txt for c in SEPS):
         t2 = txt.replace("\r\n", "\n")
         for c in SEPS:
             t2 = t2.replace(c, "_")
         if ok(t2):
             return "sphinx:splitlines-separator"
+        txt = t2                     # something else is wrong as well: keep looking on the normalised text
+    if txt and not txt.endswith("\n"):
+        if ok(txt + "\n"):
+            return "sphinx:final-line-without-newline"
+        txt = txt + "\n"
     # duplicate py:module lines
     seen, keep = set(), []
     for ln in txt.split("\n"):
@@ -782,13 +790,19 @@ def hexs(b: bytes):
     return b.hex()
 
 
+def chunk_ok(ref, got):
+    """same result; or the zlib stream itself is corrupt (one read raises zlib.error) and the chunked read fails too,
+    with zlib.error or - if an undecodable line came out first - UnicodeDecodeError (C18_chunking_independent)"""
+    return ref == got or (ref == ["exc", "error"] and got[0] == "exc" and got[1] in ("error", "UnicodeDecodeError"))
+
+
 def check_case(ctx, case):
     k = case["kind"]
     if k == "chunk":
         data = bytes.fromhex(case["data"])
         ref = impl_load(data, None, case.get("base"))
         got = impl_load(data, case["cuts"], case.get("base"))
-        if ref != got:
+        if not chunk_ok(ref, got):
             ver = "v2" if data.startswith(HDR2.encode()) else "v1" if data.startswith(HDR1.encode()) else "other"
             what = got[1] if got[0] == "exc" else ref[1] if ref[0] == "exc" else "result"
             ctx.fail(f"chunking:{ver}:{what}", case,
@@ -931,7 +945,7 @@ def search(ctx):
         ref = impl_load(data, None, base)
         for cuts in partitions(rng, data, ctx.budget(300, 1500, 3000), ctx.budget(5, 20, 40)):
             ctx.search_cases += 1
-            if impl_load(data, cuts, base) != ref:
+            if not chunk_ok(ref, impl_load(data, cuts, base)):
                 check_case(ctx, {"kind": "chunk", "data": hexs(data), "cuts": cuts, "base": base})
                 fails += 1
                 break
@@ -946,7 +960,7 @@ def search(ctx):
         for _ in range(ctx.budget(6, 20, 40)):
             cuts = random_cuts(rng, len(data))
             ctx.search_cases += 1
-            if impl_load(data, cuts, None) != ref:
+            if not chunk_ok(ref, impl_load(data, cuts, None)):
                 check_case(ctx, {"kind": "chunk", "data": hexs(data), "cuts": cuts, "base": None})
                 break
     # (b) agreement with Sphinx's loader on the same bytes
@@ -993,5 +1007,25 @@ def replay(ctx, data):
     return 0 if ok else 1
 
 
-LEVEL_TEXT = "TODO"
-LEVEL_NOTE = "TODO"
+LEVEL_TEXT = ("Proof (Coq, 15 theorems, all closed under the global context): for every list of read() results, load() equals load() "
+              "of the same bytes in one read - header lines, carried-over buffer, compressed body - except that for a stream zlib "
+              "itself rejects every chunking fails with zlib.error or UnicodeDecodeError (C18_chunking_independent, "
+              "C18_any_two_chunkings, witness C18_chunking_exception_class_refuted); readline/load never exhaust their fuel "
+              "(C18_readline_terminates, C18_load_terminates); whenever Sphinx's loads accepts the bytes, MyST's load accepts them "
+              "under every chunking with extensionally the same entries - names with spaces, '$', '-', priorities, duplicates, v1 and "
+              "v2 - and the same project/version for plain headers (C18_agrees_with_sphinx; premises: header lines valid UTF-8, no "
+              "line separator other than \\n in the body: C18_nosep_needed is the recorded open finding); a malformed v2 line / blank "
+              "v1 line is skipped and the rest of the file loads as without it, a short v1 line fails the load "
+              "(C18_bad_line_isolated, C18_blank_line_skipped_v1, C18_short_line_fails_v1); from_sphinx(to_sphinx inv) = inv for "
+              "well-formed inv and every well-formedness condition is needed (C18_sphinx_roundtrip, C18_roundtrip_conditions_needed); "
+              "both loaders use the same regenerated literals (C18_same_literals); the oracle hypotheses are satisfiable, the UTF-8 "
+              "ones are proved for the executable decoder (C18_oracles_satisfiable). The model (coq/InvLoad) is tied to inventory.py "
+              "and to the installed Sphinx loader by differential correspondence of the extracted model on every run.")
+LEVEL_NOTE = ("Trusted: Coq kernel; the hand transcriptions coq/InvLoad/{Reader,Load,SphinxInv}.v (checked by correspondence on "
+              "every split point of generated files, not proved); zlib as a streaming transducer whose state is determined by the "
+              "consumed prefix (zlib_stream_ok / zlib_oneshot_ok, measured per byte on the real zlib for every correspondence case); "
+              "re.match as an abstract function in the theorems (same literal on both sides; the executable regex engine runs the AST "
+              "regenerated with re._parser and is compared with re on generated lines); bytes.decode through decode_ok (proved for the "
+              "Gallina UTF-8 decoder, which is compared with bytes.decode). Python's recursion limit and memory are outside the model. "
+              "Open finding: lines containing \\r, VT, FF, FS, GS, RS, NEL, LS or PS are split by Sphinx 8.2 (str.splitlines) and not "
+              "by MyST.")
